@@ -131,6 +131,7 @@ type PkgSpec struct {
 	Externs map[string]*FuncSpec // "pkgpath.Func" or "pkgpath.Type.Method"
 	Ghosts  map[string]string    // ghost field name ("$x") -> Go type text
 	Models  map[string]*Clause   // "Type.$x" -> defining expression over `self` (abstraction function)
+	Constraints map[string]*Clause // "Type" -> two-state history constraint kept by every method that refines an interface contract
 	Files   []string
 }
 
@@ -164,7 +165,7 @@ func parseContractFile(path string, pkgPath string, ps *PkgSpec) error {
 		lines = append(lines, rawLine{t, path, i + 1})
 	}
 	// merge continuation lines
-	kw := regexp.MustCompile(`^(func|iface|extern|global|ghost|model|pred|arith|requires|ensures|assigns|decreases|loop|let|trusted|nilrecv|refines|inline|pure|props|hint|assert|params|results)\b`)
+	kw := regexp.MustCompile(`^(func|iface|extern|global|ghost|model|constraint|pred|arith|requires|ensures|assigns|decreases|loop|let|trusted|nilrecv|refines|inline|pure|props|hint|assert|params|results)\b`)
 	var merged []rawLine
 	for _, l := range lines {
 		if !kw.MatchString(l.text) && len(merged) > 0 {
@@ -218,6 +219,17 @@ func parseContractFile(path string, pkgPath string, ps *PkgSpec) error {
 				return fail(l, "%v", err)
 			}
 			ps.Globals = append(ps.Globals, &Clause{Kind: "global", E: e, Text: rest, File: filepath.Base(l.file), Line: l.line})
+			cur = nil
+		case "constraint":
+			k := strings.Index(rest, ":")
+			if k < 0 {
+				return fail(l, "constraint Type: expr")
+			}
+			ex, err := ParseExpr(rest[k+1:])
+			if err != nil {
+				return fail(l, "%v", err)
+			}
+			ps.Constraints[strings.TrimSpace(rest[:k])] = &Clause{Kind: "constraint", E: ex, Text: strings.TrimSpace(rest[k+1:]), File: filepath.Base(l.file), Line: l.line}
 			cur = nil
 		case "model":
 			k := strings.Index(rest, "=")
@@ -386,7 +398,7 @@ func parseContractFile(path string, pkgPath string, ps *PkgSpec) error {
 }
 
 func newPkgSpec(path string) *PkgSpec {
-	return &PkgSpec{Path: path, Preds: map[string]*Pred{}, Funcs: map[string]*FuncSpec{}, Ifaces: map[string]*FuncSpec{}, Externs: map[string]*FuncSpec{}, Ghosts: map[string]string{}, Models: map[string]*Clause{}}
+	return &PkgSpec{Path: path, Preds: map[string]*Pred{}, Funcs: map[string]*FuncSpec{}, Ifaces: map[string]*FuncSpec{}, Externs: map[string]*FuncSpec{}, Ghosts: map[string]string{}, Models: map[string]*Clause{}, Constraints: map[string]*Clause{}}
 }
 
 func (ps *PkgSpec) sortedFuncKeys() []string {
